@@ -75,7 +75,8 @@ pub fn parse_xref_stream_and_trailer(lexer: &mut Lexer, resolve: &impl Resolve) 
     };
 
     let xref_stream = t!(Stream::<XRefInfo>::from_primitive(Primitive::Stream(xref_stream), resolve));
-    let mut data_left = &*t!(xref_stream.data(resolve));
+    let data = t!(xref_stream.data_uncached(resolve));
+    let mut data_left = &*data;
     
     let width = &xref_stream.w;
 
